@@ -87,10 +87,14 @@ func runC19(c *core.Ctx) *core.Violation {
 	defer func() { srcPassword, tgtPassword = oldS, oldT }()
 	srcPassword = sentinel(c, "SRC")
 	tgtPassword = sentinel(c, "TGT")
+	unprotectedSource := t.Choose(4) == 3 // a source without a password: only the target secret exists
+	if unprotectedSource {
+		srcPassword = ""
+	}
 	level := []string{"debug", "info", "warn", "error"}[t.Choose(4)]
 	scenario := []string{"sync", "sync-target-cut", "sync-source-cut", "restore", "rump", "checkpoint", "supervisor"}[t.Choose(7)]
 	c.Sub = scenario
-	c.Sample = map[string]interface{}{"scenario": scenario, "log_level": level}
+	c.Sample = map[string]interface{}{"scenario": scenario, "log_level": level, "unprotected_source": unprotectedSource}
 	var status []string // status documents rendered as text
 	cfg := simrt.Config{MaxSteps: 3000000, MaxSimTime: time.Hour, Trace: c.Trace}
 	var lc *env.LogCapture
@@ -239,10 +243,17 @@ func runC19(c *core.Ctx) *core.Violation {
 			for i := 0; i < 3; i++ {
 				sv := modelredis.NewServer(s, net, fmt.Sprintf("node-%d", i), fmt.Sprintf("10.1.0.%d:7000", i+1))
 				sv.Password = srcPassword
+				sv.Role = "slave"
 				if i == 1 {
-					sv.Role = "master"
-				} else {
-					sv.Role = "slave"
+					probes := 0
+					lateMaster := t.Choose(2) == 1
+					sv.InfoReplication = func() string {
+						probes++
+						if lateMaster && probes == 1 {
+							return "# Replication\r\nrole:slave\r\n" // fail-over in progress: nobody is master in the first round
+						}
+						return "# Replication\r\nrole:master\r\n"
+					}
 				}
 				if i == 2 && t.Choose(2) == 1 {
 					sv.Password = "different" // AUTH fails on this node
@@ -266,6 +277,9 @@ func runC19(c *core.Ctx) *core.Violation {
 	logText := lc.String()
 	c.Count("log_bytes_scanned", len(logText))
 	for _, sec := range []struct{ name, val string }{{"source", srcPassword}, {"target", tgtPassword}} {
+		if sec.val == "" {
+			continue
+		}
 		if l := leak(logText, sec.val); l != "" {
 			return core.Violate("password-in-log", fmt.Sprintf("%s-password,line=%s", sec.name, lineClass(logText, sec.val)), "the %s password appears in the log (%s, level %s): %s", sec.name, scenario, level, l)
 		}
@@ -281,6 +295,9 @@ func runC19(c *core.Ctx) *core.Violation {
 		}
 	}
 	c.Nontrivial = len(logText) > 0 || len(status) > 0
+	if unprotectedSource {
+		c.Probe("unprotected_source")
+	}
 	c.Probe("scenario_" + scenario)
 	c.Probe("level_" + level)
 	return nil
